@@ -100,10 +100,12 @@ func (s *loopSet) translate(name string) string {
 	leanName := strings.ReplaceAll(name, ".", "_")
 	t := &loopTr{name: name, set: s, p: s.p, info: s.tp.info, fd: fd, vars: map[types.Object]string{}, params: map[types.Object]bool{},
 		safe: map[*ast.IndexExpr]bool{}, pairBuf: map[types.Object]bool{}, synthCond: map[*ast.IfStmt]string{},
-		tagged: map[types.Object]int{}, restBuf: map[types.Object]bool{}, absDeps: map[string]string{}, capSens: map[types.Object]bool{}, spareCap: map[types.Object]bool{}}
+		tagged: map[types.Object]int{}, restBuf: map[types.Object]bool{}, absDeps: map[string]string{}, capSens: map[types.Object]bool{}, spareCap: map[types.Object]bool{},
+		hashNewSel: map[*ast.SelectorExpr]*types.Var{}}
 	if fd.Type.TypeParams != nil || fd.Body == nil {
 		t.fail(fd, "generic functions and bodyless functions are not supported")
 	}
+	t.setupRecursion(leanName)
 	t.setupRecv()
 	ast.Inspect(fd.Body, func(n ast.Node) bool {
 		if _, ok := n.(*ast.FuncLit); ok {
@@ -172,6 +174,9 @@ func (s *loopSet) translate(name string) string {
 		if o == t.recv {
 			return
 		}
+		if t.recursive && id.Name == "fuel" {
+			t.fail(id, "variable name fuel clashes with the recursion parameter of the generated Lean text")
+		}
 		if leanReserved[id.Name] || strings.HasPrefix(id.Name, "st_") || strings.HasPrefix(id.Name, "sw_") || strings.HasPrefix(id.Name, "rk_") || strings.HasPrefix(id.Name, "var_") || s.all[id.Name] || id.Name == "nil" ||
 			strings.HasSuffix(id.Name, "_rest") {
 			t.fail(id, "variable name %s clashes with a name used by the generated Lean text", id.Name)
@@ -205,6 +210,9 @@ func (s *loopSet) translate(name string) string {
 			if isPlainArray(o.Type()) || t.isBuilder(o) {
 				t.fail(id, "type %s is outside the translated subset (array parameters are copies; not supported)", o.Type())
 			}
+			if t.kindOf(o.Type(), id) == kHash {
+				t.fail(id, "%s (a parameter of type hash.Hash is not supported)", hashShape)
+			}
 			params = append(params, fmt.Sprintf("(%s : %s)", id.Name, t.kindOf(o.Type(), id).lean()))
 		}
 	}
@@ -215,6 +223,9 @@ func (s *loopSet) translate(name string) string {
 				t.fail(f, "named results are not supported")
 			}
 			k := t.kindOf(t.typeOf(f.Type).Type, f)
+			if k == kHash || k == kMarsh || k == kMarshs {
+				t.fail(f, "a result of type %s is not supported", t.typeOf(f.Type).Type)
+			}
 			t.rets = append(t.rets, k)
 			rt = append(rt, k.lean())
 		}
@@ -239,9 +250,14 @@ func (s *loopSet) translate(name string) string {
 		t.fail(fd, "function without result and without effect on a field or an output buffer")
 	}
 	t.retTy = strings.Join(rt, " × ")
+	t.completeSelfSig()
 	t.classify()
-	t.flowFn = t.needsFlow(fd.Body, false) || !t.pureTailOK(fd.Body.List)
-	body := t.block(fd.Body.List, "  ", blockMode{flow: t.flowFn, tail: true}, func(ind string) string {
+	t.flowFn = t.needsFlow(fd.Body, false) || !t.pureTailOK(fd.Body.List) || t.recursive
+	bodyInd := "  "
+	if t.recursive {
+		bodyInd = "    " // inside `match fuel with | fuel + 1 =>`
+	}
+	body := t.block(fd.Body.List, bodyInd, blockMode{flow: t.flowFn, tail: true}, func(ind string) string {
 		if len(t.rets) != 0 {
 			t.fail(fd, "function falls off the end")
 		}
@@ -291,8 +307,13 @@ func (s *loopSet) translate(name string) string {
 	if len(t.mayOverlap) > 0 {
 		doc += "; ASSUMPTION (not checked here): the array of " + strings.Join(t.mayOverlap, ", ") + " does not overlap the arrays of the other parameters"
 	}
+	if t.recursive {
+		body = t.resolveSelfDeps(body)
+		params = append([]string{"(fuel : Nat)"}, params...)
+		t.closeSelfCap()
+	}
 	if len(t.absDeps) > 0 {
-		var ns []string
+		var ns, other, hashes []string
 		for n := range t.absDeps {
 			ns = append(ns, n)
 		}
@@ -300,11 +321,32 @@ func (s *loopSet) translate(name string) string {
 		var ps []string
 		for _, n := range ns {
 			ps = append(ps, fmt.Sprintf("(%s : %s)", n, t.absDeps[n]))
+			if f, isHash := hashDepNames[n]; isHash && t.absDeps[n] == hashSumType {
+				hashes = append(hashes, fmt.Sprintf("%s: the hash function in the field `%s` of the receiver (a crypto.Hash) as the function from the bytes written to a hash object it makes to the digest Sum(nil) returns — see the assumptions in the header, stage 7; passed in by the caller", n, f))
+			} else {
+				other = append(other, n)
+			}
 		}
 		params = append(ps, params...)
-		doc += "; PARAMETER " + strings.Join(ns, ", ") + ": not translated — an abstract method (its fields in, its fields out, none = panic), a library function, or a field of a package-level struct; passed in by the caller"
+		if len(other) > 0 {
+			doc += "; PARAMETER " + strings.Join(other, ", ") + ": not translated — an abstract method (its fields in, its fields out, none = panic), a library function, or a field of a package-level struct; passed in by the caller"
+		}
+		for _, h := range hashes {
+			doc += "; PARAMETER " + h
+		}
 	}
 	t.register(leanName)
+	if t.recursive {
+		doc += "; RECURSIVE: defined by structural recursion on the additional parameter `fuel`, every call of the function itself passes fuel - 1; " +
+			"none = run-time panic OR fuel exhausted (the translation says nothing about termination)"
+		if len(t.capCaveat) > 0 {
+			doc += "; NOTE: it passes windows x[:hi] of " + strings.Join(t.capCaveat, ", ") + " to itself and slices that parameter with an upper bound, which Go checks against the " +
+				"capacity (not modelled: taken to be the length), so a none may also stand for an upper bound beyond the length of such a window; every `some r` is what Go computes"
+		}
+		s.flowFns[name] = true
+		return fmt.Sprintf("/-- %s -/\ndef %s %s : Option (%s) :=\n  match fuel with\n  | 0 => none\n  | fuel + 1 =>\n    Go.Flow.result (\n%s)\n",
+			doc, leanName, strings.Join(params, " "), t.retTy, body)
+	}
 	if t.flowFn {
 		doc += "; none = run-time panic"
 		s.flowFns[name] = true
@@ -426,6 +468,9 @@ func (t *loopTr) block(list []ast.Stmt, ind string, m blockMode, k func(ind stri
 	case *ast.BlockStmt:
 		return t.block(append(append([]ast.Stmt{}, s.List...), list[1:]...), ind, m, k)
 	case *ast.ReturnStmt:
+		if c, sig := t.tupleRetCall(s); c != nil {
+			return t.returnCall(s, c, sig, list, ind, m)
+		}
 		if hpre, hpost := t.hoistCalls(ind, m, nil, s); hpre != "" {
 			out := t.block(list, ind, m, k)
 			return hpre + out + hpost
@@ -467,6 +512,8 @@ func (t *loopTr) block(list []ast.Stmt, ind string, m blockMode, k func(ind stri
 						// below: a nil slice is []
 					} else if _, local := t.vars[o]; !local || t.params[o] {
 						t.fail(r, "returning `%s` would alias a parameter or package variable", id.Name)
+					} else if t.facts.marshRes[o] {
+						t.fail(r, "returning `%s`, which holds the bytes MarshalBinary() returned, would alias memory of the element", id.Name)
 					}
 				}
 			}
@@ -634,6 +681,9 @@ func (t *loopTr) simple(st ast.Stmt) []binding {
 			if o, m := t.builderCall(c); o != nil {
 				return t.builderStmt(s, o, m)
 			}
+			if o, m := t.hashCall(c); o != nil {
+				return t.hashStmt(s, c, o, m)
+			}
 		}
 		return t.copyStmt(s)
 	case *ast.IncDecStmt:
@@ -680,6 +730,8 @@ func (t *loopTr) simple(st ast.Stmt) []binding {
 					val = "false"
 				case isErrKind(k):
 					val = "none"
+				case k == kHash || k == kMarsh || k == kMarshs:
+					t.fail(s, "a variable of type %s without an initial value (nil) is not supported", t.objOf(id).Type())
 				case isPlainArray(t.objOf(id).Type()):
 					n, _ := arrayLen(t.objOf(id).Type())
 					val = fmt.Sprintf("(List.replicate %d 0#%d)", n, k.elem().width())
